@@ -5,13 +5,13 @@ SPEC = {
     "units": [
         {"name": "tree", "pkg": LOG, "kind": "rapid", "run": "^TestVerifC20Tree$",
          "quick": {"checks": 30000, "shards": 2, "timeout": 300},
-         "thorough": {"checks": 100000, "shards": 16, "timeout": 1500}},
+         "thorough": {"checks": 300000, "shards": 16, "timeout": 1500}},
         {"name": "addr", "pkg": LOG, "kind": "rapid", "run": "^TestVerifC20Addr$",
          "quick": {"checks": 10000, "shards": 1, "timeout": 300},
          "thorough": {"checks": 50000, "shards": 4, "timeout": 1500}},
         {"name": "real", "pkg": LOG, "kind": "rapid", "run": "^TestVerifC20Real$",
          "quick": {"checks": 2000, "shards": 2, "timeout": 300},
-         "thorough": {"checks": 6000, "shards": 8, "timeout": 1500}},
+         "thorough": {"checks": 20000, "shards": 8, "timeout": 1500}},
     ],
 }
 
